@@ -780,11 +780,45 @@ func keyFromLocalSetRange(k ssa.Value) bool {
 			}
 		}
 	}
-	mm, ok := m.(*ssa.MakeMap)
-	if !ok {
+	if mm, ok := m.(*ssa.MakeMap); ok {
+		return strings.HasSuffix(mm.Type().String(), "]struct{}")
+	}
+	// a set that outlives the document (kept in a per-batch struct) is per-document all
+	// the same when the loop that counts its members also empties it: every
+	// iteration deletes the key it ranges over, on every path of the body
+	if !strings.HasSuffix(rg.X.Type().String(), "]struct{}") {
 		return false
 	}
-	return strings.HasSuffix(mm.Type().String(), "]struct{}")
+	hdr := nx.Block()
+	if !isLoopHeader(hdr) {
+		return false
+	}
+	body := loopBody(hdr)
+	via := map[*ssa.BasicBlock]bool{}
+	for b := range body {
+		for _, ins := range b.Instrs {
+			call, ok := ins.(*ssa.Call)
+			if !ok {
+				continue
+			}
+			if bi, ok := call.Call.Value.(*ssa.Builtin); ok && bi.Name() == "delete" && len(call.Call.Args) == 2 {
+				if stripConv(call.Call.Args[1]) == stripConv(k) && (call.Call.Args[0] == rg.X || accessPath(call.Call.Args[0]) == accessPath(rg.X)) {
+					via[b] = true
+				}
+			}
+		}
+	}
+	if len(via) == 0 {
+		return false
+	}
+	// every path from the body entry back to the header passes a delete
+	for i, pr := range hdr.Preds {
+		_ = i
+		if hdr.Dominates(pr) && !coveredFrom(hdr.Succs[0], via, pr) && !via[pr] {
+			return false
+		}
+	}
+	return true
 }
 
 // varargValues returns the values stored into the elements of a variadic
